@@ -233,8 +233,12 @@ class ndpoly(numpy.ndarray):  # pylint: disable=invalid-name
     ) -> Any:
         """Dispatch method for operators."""
         if method == "reduce":
+            if ufunc not in REDUCE_MAPPINGS:
+                raise FeatureNotSupported(f"ufunc '{ufunc}.reduce' not supported.")
             ufunc = REDUCE_MAPPINGS[ufunc]
         elif method == "accumulate":
+            if ufunc not in ACCUMULATE_MAPPINGS:
+                raise FeatureNotSupported(f"ufunc '{ufunc}.accumulate' not supported.")
             ufunc = ACCUMULATE_MAPPINGS[ufunc]
         elif method != "__call__":
             raise FeatureNotSupported(f"Method '{method}' not supported.")
